@@ -444,6 +444,29 @@ def construct(self, ci, pos, kw, node, fr, star=None, dstar=None):
     if init is not None:
         self.call_package(init, pos, kw, obj, ci, node, fr, star, dstar)
     else:
+        # class C(collections.namedtuple('C', fields)): ...   without a constructor of its own: the fields are the
+        # attributes of the new object
+        fields = None
+        for c_ in ci.mro():
+            for b_ in c_.node.bases:
+                if isinstance(b_, ast.Call) and ast.unparse(b_.func).split('.')[-1] == 'namedtuple' and len(b_.args) >= 2 \
+                        and not b_.keywords and c_.find_method('__new__') is None:
+                    fa_ = b_.args[1]
+                    if isinstance(fa_, (ast.List, ast.Tuple)) and all(isinstance(x, ast.Constant) and isinstance(x.value, str)
+                                                                        for x in fa_.elts):
+                        fields = [x.value for x in fa_.elts]
+                    elif isinstance(fa_, ast.Constant) and isinstance(fa_.value, str):
+                        fields = fa_.value.replace(',', ' ').split()
+            if fields:
+                break
+        if fields and star is None and dstar is None and len(pos) <= len(fields):
+            vals = dict(zip(fields, pos))
+            for k_, v_ in kw:
+                vals[k_] = v_
+            if set(vals) == set(fields):
+                self.heap_base[obj.key] = obj
+                for f_ in fields:
+                    self.heap[(obj.key, f_)] = vals[f_]
         self.emit('call', node, fr, name=ci.qual + '()', resolved=None, args=pos, kwargs=kw, external=False)
     # canonical value for comparison purposes: constructor + args
     self.__dict__.setdefault('ctor_args', {})[obj.key] = (ci, pos, kw)
